@@ -19,7 +19,7 @@ def run(ctx, broken):
         if mo is not None and io != mo and len(res["disagreements"]) < 30:
             k = next((j for j in range(min(len(io), len(mo))) if io[j] != mo[j]), min(len(io), len(mo)))
             res["disagreements"].append({"what": "history `%s`: observation %d differs: implementation `%s`, model `%s`" % (line[:300], k, io[k] if k < len(io) else "-", mo[k] if k < len(mo) else "-"), "case": line})
-        total = io[-1]
+        total = io[-2] if io and io[-1].startswith("W") else io[-1]
         if not total.startswith("T"):
             res["failures"].append({"class": "crash", "what": "history did not complete: " + line[:300], "case": line})
             continue
